@@ -32,6 +32,7 @@ Theorem ss_read_spec : forall c s client blobber alloc ts ctr id_ok sig_ok s',
   id_ok = true /\ sig_ok = true /\ 0 < ctr /\
   let last := ss_read_last blobber client alloc (st_reads s) in
   ss_last0 last <= ctr /\ (match last with Some n => n <= ctr | None => True end) /\
+  ctr - ss_last0 last <= (2 ^ 63 - 1) / ss_CHUNK /\
   exists a d b,
     ss_find_alloc alloc (st_allocs s) = Some a /\ ss_find_ba blobber (al_bas a) = Some d /\
     ss_find_blobber blobber (st_blobbers s) = Some b /\ al_start a <= ts <= al_exp a /\
@@ -45,9 +46,10 @@ Theorem ss_read_spec : forall c s client blobber alloc ts ctr id_ok sig_ok s',
 Proof.
   unfold ss_read; intros c s client blobber alloc ts ctr id_ok sig_ok s' H.
   guard_inv H. guard_inv H. guard_inv H. guard_inv H. bind_as H a Ea. guard_inv H. bind_as H d Ed. bind_as H b Eb.
-  guard_inv H. bind_as H b1 Eb1. bind_as H rr Err. inversion H; subst. clear H.
+  guard_inv H. guard_inv H. bind_as H b1 Eb1. bind_as H rr Err. inversion H; subst. clear H.
   apply andb_true_iff in G0. destruct G0 as [G0 _]. apply Z.ltb_lt in G0.
-  apply andb_true_iff in G3. destruct G3 as [G3a G3b]. apply Z.leb_le in G3a, G3b. apply Z.leb_le in G4.
+  apply andb_true_iff in G3. destruct G3 as [G3a G3b]. apply Z.leb_le in G3a, G3b.
+  apply andb_true_iff in G4. destruct G4 as [_ G4]. apply Z.leb_le in G4. apply Z.leb_le in G5.
   set (last := ss_read_last blobber client alloc (st_reads s)) in *.
   assert (Hl : ss_last0 last <= ctr /\ match last with Some n => n <= ctr | None => True end).
   { destruct last as [n|]; cbn; [apply Z.leb_le in G1; lia | lia]. }
@@ -83,6 +85,16 @@ Lemma ss_read_older_rejected : forall c s client blobber alloc ts ctr id_ok sig_
 Proof.
   intros. destruct (ss_read c s client blobber alloc ts ctr id_ok sig_ok) eqn:E; [|reflexivity].
   apply ss_read_spec in E. destruct E as [_ [_ [_ [_ [E _]]]]]. rewrite H in E. lia.
+Qed.
+
+(* for an accepted delta the byte count does not wrap *)
+Lemma ss_read_value_no_wrap : forall rp n, 0 <= n <= (2 ^ 63 - 1) / ss_CHUNK ->
+  ss_read_value rp n = f64_to_u64 (f64_mul (f64_of_Z rp) (ss_size_gb (n * ss_CHUNK))).
+Proof.
+  intros rp n Hn. unfold ss_read_value. f_equal. f_equal. f_equal.
+  unfold ss_i64. assert (Hc : ss_CHUNK = 65536) by reflexivity. rewrite Hc in *.
+  assert (Hq : (2 ^ 63 - 1) / 65536 = 140737488355327) by reflexivity. rewrite Hq in Hn.
+  rewrite Z.mod_small; lia.
 Qed.
 
 (* a replayed counter reads zero new blocks; zero blocks cost nothing whenever the price converts
@@ -134,7 +146,7 @@ Proof.
   - apply Same, misc_reads. eapply ss_cancel_misc; eauto.
   - apply Same. eapply ss_rp_lock_reads; eauto.
   - apply Same. eapply ss_rp_unlock_reads; eauto.
-  - apply ss_read_spec in H. destruct H as [_ [_ [_ [_ [Hle [a [d [bb [_ [_ [_ [_ [_ [_ [Hr _]]]]]]]]]]]]]]].
+  - apply ss_read_spec in H. destruct H as [_ [_ [_ [_ [Hle [_ [a [d [bb [_ [_ [_ [_ [_ [_ [Hr _]]]]]]]]]]]]]]]].
     rewrite Hr. destruct ((b =? blobber) && (cl =? client) && (al =? alloc)) eqn:E.
     + apply andb_true_iff in E. destruct E as [E E3]. apply andb_true_iff in E. destruct E as [E1 E2].
       apply Z.eqb_eq in E1, E2, E3. subst. rewrite Hn in Hle. exists ctr. split; [reflexivity | exact Hle].
